@@ -57,7 +57,9 @@ fn build_urls() -> Vec<U> {
     for i in 0..n {
         paths.push(nth_string(i, &["a", "b", "/", "."]));
     }
-    for extra in ["?a", "a?b", "a=b", "a:b", "A", "aB/", "ab.a", "a.b/a", "b/a.b", "a&b", "a_b", "a-b", "a%b", "AB", "Ab", "bA/", "B/a", "A.B", "aA", "B"] {
+    for extra in ["?a", "a?b", "a=b", "a:b", "A", "aB/", "ab.a", "a.b/a", "b/a.b", "a&b", "a_b", "a-b", "a%b", "AB", "Ab", "bA/", "B/a", "A.B", "aA", "B",
+        // an `@` outside the authority, followed by host-like text (also the request's own host)
+        "a@a.b", "a@a.b/a", "@b.a", "a/@a.b/b", "?a@a.b", "?a=b@b.a/a", "a@ab.a/b", "#@a.b/a"] {
         paths.push(extra.to_string());
     }
     let mut out = vec![];
